@@ -155,6 +155,16 @@ func c12(r *rand.Rand, n int) {
 			for k := 0; k < 3000; k++ {
 				sb.WriteString("$if mode=emacs\n")
 			}
+		case 2:
+			// a line of every length that ends inside a quoted string or an escape: an index one past the end
+			// of the line only panics when the line fills its buffer (the rune buffer is rounded up to a size class)
+			class = "cut-line-lengths"
+			tmpl := []string{"set v \"%s\\", "set v '%s\\", "set v \"%s", "\"%s\\", "\"a\": \"%s\\", "Control-a: \"%s\\", "\"%s\\C-", "\"%s\\M-\\", "\"%s\\x", "$if \"%s\\", "set keymap \"%s\\", "\"%s\": '\\"}[r.Intn(12)]
+			fill := strings.Repeat([]string{"a", "é", "a b", "\\\\"}[r.Intn(4)], r.Intn(70))
+			sb.WriteString(fmt.Sprintf(tmpl, fill))
+			if r.Intn(2) == 0 {
+				sb.WriteString("\n")
+			}
 		default:
 			for k := 1 + r.Intn(30); k > 0; k-- {
 				sb.WriteString(frags[r.Intn(len(frags))])
